@@ -148,8 +148,9 @@ def is_stream_type(t):
 
 
 class SymEx:
-    def __init__(self, prog, opaque=(), max_depth=12, inline_filter=None):
+    def __init__(self, prog, opaque=(), max_depth=12, inline_filter=None, record_access=False):
         self.p = prog
+        self.record_access = record_access
         self.opaque = set(opaque)
         self.max_depth = max_depth
         self.effects = []
@@ -1428,6 +1429,9 @@ class SymEx:
                 idx = ZERO
             else:
                 idx = sub(size(vec), ONE)
+            if self.record_access:
+                self.effect(st, 'access', how=e.a['name'], size=size(vec), index=idx, where=e.where(),
+                            node=e.cid, func=self.frames[-1].func.qualname if self.frames else None)
             return ('lv', bl[1], bl[2] + (('i', idx),))
         if op == 'cast' and e.a.get('kind') in ('const_cast', 'dynamic_cast', 'BaseToDerived'):
             return self.eval_lv(st, e.k[0])
@@ -2036,6 +2040,9 @@ class SymEx:
                 return self.read(st, l2)
             idx = self.eval(st, args[0]) if name == 'at' else (ZERO if name == 'front'
                                                                  else sub(size(vec), ONE))
+            if self.record_access:
+                self.effect(st, 'access', how=name, size=size(vec), index=idx, where=e.where(),
+                            node=e.cid, func=self.frames[-1].func.qualname if self.frames else None)
             return sel(vec, idx)
         if name in ('begin', 'cbegin'):
             return ('iter', lv if lv is not None else vec, ZERO)
